@@ -72,6 +72,8 @@ def drawn_plotly(fig, scene="scene", data=None):
              "xyz": np.array([_farr(d.x), _farr(d.y), _farr(d.z)]).T}
         if d.type == "mesh3d" and d.i is not None:
             t["ijk"] = np.array([d.i, d.j, d.k], dtype=int).T
+            if getattr(d, "facecolor", None) is not None:
+                t["facecolor"] = np.array(d.facecolor, dtype=object)
         traces.append(t)
     return {"units": units, "traces": traces}
 
@@ -159,7 +161,7 @@ def build(spec, pose=True):
     elif cls == "Dipole":
         o = magpy.misc.Dipole(moment=p["moment"])
     elif cls == "Sensor":
-        o = magpy.Sensor(pixel=p["pixel"])
+        o = magpy.Sensor(pixel=p["pixel"], handedness=p.get("handedness", "right"))
     else:
         raise ValueError(cls)
     for k, v in spec.get("style", {}).items():
@@ -170,7 +172,25 @@ def build(spec, pose=True):
     return o
 
 
+AXES6 = [[1, 0, 0], [-1, 0, 0], [0, 1, 0], [0, -1, 0], [0, 0, 1], [0, 0, -1]]
+
+
+def special_dir(rng, zero=True):
+    """a vector exactly along +-x, +-y, +-z (or zero): the degenerate branches of every rotation-onto-axis code"""
+    if zero and rng.random() < 0.15:
+        return [0.0, 0.0, 0.0]
+    k = rng.choice([1.0, 0.5, 2.5])
+    return [k * c for c in rng.choice(AXES6)]
+
+
 def gen_params(rng, cls, scale=1.0):
+    p = gen_params_geom(rng, cls, scale)
+    if cls in MAGNETS and "pol" not in p and rng.random() < 0.5:
+        p["pol"] = special_dir(rng)
+    return p
+
+
+def gen_params_geom(rng, cls, scale=1.0):
     u = lambda a, b: round(rng.uniform(a, b), 3) * scale   # noqa: E731
     vec = lambda a=-1.5, b=1.5: [u(a, b) for _ in range(3)]   # noqa: E731
     if cls == "Cuboid":
@@ -181,7 +201,9 @@ def gen_params(rng, cls, scale=1.0):
         r1 = u(0.0, 1.5) if rng.random() < 0.8 else 0.0
         p1 = round(rng.uniform(-360, 300), 1)
         return {"dim": [r1, r1 + u(0.2, 2), u(0.3, 3), p1, p1 + round(rng.uniform(10, 360), 1)]}
-    if cls in ("Sphere", "Circle"):
+    if cls == "Circle":
+        return {"d": u(0.3, 3), "current": rng.choice([1.5, -2.0, 0.0])}
+    if cls == "Sphere":
         return {"d": u(0.3, 3)}
     if cls == "Tetrahedron":
         while True:
@@ -202,14 +224,16 @@ def gen_params(rng, cls, scale=1.0):
             if np.linalg.norm(np.cross(a[1] - a[0], a[2] - a[0])) > 0.3 * scale ** 2:
                 return {"verts": v, "pol": [0.1, 0.2, 0.3] if rng.random() < 0.6 else [0.0, 0.0, 0.0]}
     if cls == "Polyline":
-        return {"verts": [vec() for _ in range(rng.randint(2, 6))], "current": rng.choice([1.5, -2.0])}
+        return {"verts": [vec() for _ in range(rng.randint(2, 6))], "current": rng.choice([1.5, -2.0, 0.0])}
     if cls == "Dipole":
-        return {"moment": [round(rng.uniform(-2, 2), 3) for _ in range(3)] if rng.random() < 0.8 else [0, 0, 1.0]}
+        return {"moment": [round(rng.uniform(-2, 2), 3) for _ in range(3)] if rng.random() < 0.5
+                else special_dir(rng, zero=False), "pivot": rng.choice(["middle", "tail", "tip"])}
     if cls == "Sensor":
         k = rng.choice([0, 1, 2, 4])
+        hand = rng.choice(["right", "left"])
         if k == 0:
-            return {"pixel": [0.0, 0.0, 0.0] if rng.random() < 0.5 else vec(-0.5, 0.5)}
-        return {"pixel": [vec(-0.5, 0.5) for _ in range(k)]}
+            return {"pixel": [0.0, 0.0, 0.0] if rng.random() < 0.5 else vec(-0.5, 0.5), "handedness": hand}
+        return {"pixel": [vec(-0.5, 0.5) for _ in range(k)], "handedness": hand}
     raise ValueError(cls)
 
 
@@ -217,6 +241,11 @@ def gen_pose(rng, n, generic=True):
     if generic:
         pos = [[round(rng.uniform(-5, 5), 3) for _ in range(3)] for _ in range(n)]
         rv = [[round(rng.uniform(-2, 2), 3) for _ in range(3)] for _ in range(n)]
+        for k in range(n):          # exact half turns (about an axis, about a diagonal) and exact quarter turns
+            if rng.random() < 0.25:
+                ax = rng.choice(AXES6 + [[1, 1, 0], [1, 1, 1], [0, -1, 1]])
+                ang = rng.choice([math.pi, math.pi, math.pi / 2])
+                rv[k] = (np.array(ax, dtype=float) / np.linalg.norm(ax) * ang).tolist()
     else:
         pos, rv = [[0.0, 0.0, 0.0]] * n, [[0.0, 0.0, 0.0]] * n
     return (pos[0], rv[0]) if n == 1 and rng.random() < 0.5 else (pos, rv)
@@ -259,6 +288,48 @@ def spec_frames(n, sel):
     return [out]
 
 
+def special_specs(rng):
+    """exact special values for every class: vectors along +-x, +-y, +-z and zero, both chiralities, currents
+    0 / negative, degenerate-but-valid sizes, both handednesses, all pivots.  `_flips`: also run at the exact
+    half turns about x, y, z"""
+    base = {"kind": "single", "pos": [0.3, -0.2, 0.1], "rotvec": [0.4, -0.3, 0.2], "frames": None, "units": "m",
+            "backend": "plotly"}
+    out = []
+
+    def add(cls, params, flips=False, **kw):
+        out.append({**base, "cls": cls, "params": params, "_flips": flips, **kw})
+    for d in AXES6:
+        for piv in ("middle", "tail", "tip"):
+            add("Dipole", {"moment": [2.5 * c for c in d], "pivot": piv}, flips=(piv == "middle"))
+    geoms = {
+        "Cuboid": [{"dim": [1.0, 2.0, 3.0]}, {"dim": [2.0, 2.0, 1e-3]}],
+        "Cylinder": [{"dim": [1.0, 2.0]}, {"dim": [3.0, 1e-3]}],
+        "CylinderSegment": [{"dim": [0.0, 1.0, 2.0, 0.0, 360.0]}, {"dim": [0.5, 1.0, 1.0, -90.0, 90.0]},
+                            {"dim": [0.0, 2.0, 0.5, 350.0, 370.0]}, {"dim": [1.0, 1.001, 1.0, -360.0, 0.0]}],
+        "Sphere": [{"d": 1.5}],
+        "Tetrahedron": [{"verts": [[0, 0, 0], [1, 0, 0], [0, 1, 0], [0, 0, 1]]},
+                        {"verts": [[0, 0, 0], [0, 1, 0], [1, 0, 0], [0, 0, 1]]}],          # both chiralities
+        "TriangularMesh": [{"points": [[0, 0, 0], [1, 0, 0], [0, 1, 0], [0, 0, 1], [1, 1, 1]]}],
+        "Triangle": [{"verts": [[0, 0, 0], [1, 0, 0], [0, 1, 0]]}, {"verts": [[0, 0, 0], [0, 1, 0], [1, 0, 0]]},
+                     {"verts": [[0, 0, 1], [0, 2, 1], [0, 0, 3]]}],
+    }
+    for cls, gl in geoms.items():
+        for gi, g in enumerate(gl):
+            for di, d in enumerate(AXES6 + [[0, 0, 0]]):
+                if gi > 0 and di % 3 != gi % 3 and cls not in ("Triangle",):
+                    continue            # every direction on the first geometry, a third of them on the others
+                add(cls, {**g, "pol": [0.5 * c for c in d]}, flips=(gi == 0 and di in (0, 3, 5)))
+    for cur in (1.5, -2.0, 0.0):
+        add("Polyline", {"verts": [[0, 0, 0], [1, 0, 0], [1, 0, 0], [1, 1, 0], [1, 1, -1]], "current": cur}, flips=cur < 0)
+        add("Polyline", {"verts": [[0, 0, 0], [0, -1, 0]], "current": cur})
+        add("Circle", {"d": 2.0, "current": cur}, flips=cur < 0)
+    for hand in ("right", "left"):
+        add("Sensor", {"pixel": [0.0, 0.0, 0.0], "handedness": hand}, flips=True)
+        add("Sensor", {"pixel": [[x, y, 0.0] for x in (-0.1, 0.1) for y in (-0.2, 0.2)], "handedness": hand})
+        add("Sensor", {"pixel": [[0.1, 0.0, 0.0], [0.3, 0.0, 0.0]], "handedness": hand})
+    return out
+
+
 def gen_single(rng, cls, generic=True, scale=1.0):
     n = rng.choice([1, 1, 2, 3, 5])
     pos, rv = gen_pose(rng, n, generic)
@@ -268,6 +339,10 @@ def gen_single(rng, cls, generic=True, scale=1.0):
 
 # ---------------------------------------------------------------------------------------------------------
 # showing
+DIPOLE_SIZE = 0.7
+AXIS_COLORS = {"x": "#ff0001", "y": "#00ff01", "z": "#0100ff"}
+
+
 def show_kwargs(spec, decor=False):
     kw = {"backend": spec.get("backend", "plotly"), "return_fig": True}
     if spec.get("frames", None) is not None:
@@ -278,6 +353,11 @@ def show_kwargs(spec, decor=False):
         kw.update(DECOR_OFF)
     if spec["cls"] in OTHERS and spec.get("absolute", True):
         kw["style_sizemode"] = "absolute"
+    if spec["cls"] == "Dipole":
+        kw["style_size"] = DIPOLE_SIZE
+        kw["style_pivot"] = spec["params"].get("pivot", "middle")
+    if spec["cls"] == "Sensor":
+        kw.update({f"style_arrows_{a}_color": c for a, c in AXIS_COLORS.items()})
     kw.update(spec.get("show_kw", {}))
     return kw
 
@@ -517,6 +597,16 @@ def features(spec):
         nrm = np.cross(v[1] - v[0], v[2] - v[1])
         if np.all(np.cross(np.array(spec["params"].get("pol", (0.1, 0.2, 0.3)), dtype=float), nrm) == 0):
             f.append("magnetised-along-normal-or-not")      # the branch of make_Triangle that thickens the facet
+    vecp = spec["params"].get("moment") if spec["cls"] == "Dipole" else (
+        spec["params"].get("pol") if spec["cls"] in MAGNETS else None)
+    if vecp is not None:
+        nz = [i for i, c in enumerate(vecp) if c != 0]
+        if len(nz) == 1:
+            f.append("along" + ("+" if vecp[nz[0]] > 0 else "-") + "xyz"[nz[0]])
+        elif not nz:
+            f.append("zero-vector")
+    if spec["cls"] == "Sensor" and spec["params"].get("handedness") == "left":
+        f.append("left-handed")
     if spec.get("scale_dependent"):
         f.append("scale-dependent")        # the same object scaled down to size 0.1 passes
     if len(pos) > 1:
@@ -636,17 +726,29 @@ def check_single(spec):
     elif cls == "Dipole":
         m = np.array(spec["params"]["moment"], dtype=float)
         m /= np.linalg.norm(m)
-        c = local - local.mean(axis=0)
-        far = c[np.argmax(np.abs(c @ m))]
-        # the arrow is a body of revolution about the moment direction
-        ax_len = np.ptp(local @ m)
-        perp = np.linalg.norm(c - np.outer(c @ m, m), axis=1).max()
-        if not (ax_len > 2 * perp):
-            return ("placed-at-pose", "the dipole arrow is not elongated along the moment")
-        tip = local[np.argmax(local @ m)]
-        if np.linalg.norm(tip - (tip @ m) * m) > 1e-9 * size:
-            return ("placed-at-pose", "the dipole arrow tip is not on the moment axis")
-        del far
+        ax = local @ m                                        # coordinate along the moment
+        rad = np.linalg.norm(local - np.outer(ax, m), axis=1)   # distance from the moment axis
+        lo, hi = {"middle": (-0.5, 0.5), "tail": (0.0, 1.0), "tip": (-1.0, 0.0)}[spec["params"].get("pivot", "middle")]
+        if abs(ax.min() - lo * DIPOLE_SIZE) > 1e-9 or abs(ax.max() - hi * DIPOLE_SIZE) > 1e-9:
+            return ("placed-at-pose", f"the dipole arrow spans [{ax.min():.3g}, {ax.max():.3g}] along its moment, "
+                                      f"expected [{lo * DIPOLE_SIZE:.3g}, {hi * DIPOLE_SIZE:.3g}]")
+        if rad.max() > 0.2 * DIPOLE_SIZE:
+            return ("placed-at-pose", "the dipole arrow is not a slender body around the moment axis")
+        top, bottom = rad[ax > ax.max() - 1e-9], rad[ax < ax.min() + 1e-9]
+        if top.max() > 1e-9 or bottom.max() < 1e-3 * DIPOLE_SIZE:
+            return ("placed-at-pose", "the dipole arrow does not point along the moment (apex at the wrong end)")
+    if cls == "Sensor" and "facecolor" in ref_body[0] and "ijk" in ref_body[0]:
+        # the coloured axis arrows point along the sensor's local +x, +y, +z (x flipped for a left-handed sensor)
+        fc, ijk0 = ref_body[0]["facecolor"], ref_body[0]["ijk"]
+        for k, a in enumerate("xyz"):
+            idx = np.unique(ijk0[fc == AXIS_COLORS[a]])
+            if len(idx) == 0:
+                return ("placed-at-pose", f"the sensor's {a}-axis arrow is not drawn")
+            pts = local[idx]
+            tipv = pts[np.argmax(np.linalg.norm(pts, axis=1))]
+            want_dir = np.eye(3)[k] * (-1.0 if (a == "x" and spec["params"].get("handedness") == "left") else 1.0)
+            if np.linalg.norm(tipv) == 0 or tipv @ want_dir < 0.999 * np.linalg.norm(tipv):
+                return ("placed-at-pose", f"the sensor's {a}-axis arrow does not point along its local {a} axis")
 
     # ---- copies: one per displayed index, each = R_e local + p_e  (an index selected twice, e.g. -1 and n-1,
     # is drawn twice: any number of copies is accepted as long as each sits at a displayed pose)
@@ -710,6 +812,42 @@ def check_single(spec):
         got = pts[0]["xyz"]
         if got.shape != pos.shape or np.abs(got - pos).max() > 1e-9 * Lsc:
             return ("path-line", "the path line does not pass through the path positions in order")
+    return None
+
+
+def check_mag_arrows(spec):
+    """style_magnetization_mode='arrow': the arrow starts at the barycenter and points along the magnetization,
+    at the displayed pose"""
+    cls = spec["cls"]
+    if cls not in MAGNETS:
+        return None
+    s1 = {**spec, "pos": np.reshape(spec["pos"], (-1, 3))[-1].tolist(),
+          "rotvec": np.reshape(spec["rotvec"], (-1, 3))[-1].tolist(), "frames": None}
+    obj = build(s1)
+    pol = np.array(s1["params"].get("pol", (0.1, 0.2, 0.3)), dtype=float)
+    for backend, kw in (("plotly", {"style_magnetization_mode": "arrow"}), ("matplotlib", {})):
+        tr, _ = to_metres(do_show([obj], {**show_kwargs({**s1, "backend": backend}), **kw}))
+        lines = [t for t in tr if t["type"] == "scatter3d" and not is_path_trace(t) and "lines" in t["mode"]]
+        if not pol.any():
+            if lines:
+                return ("placed-at-pose", "a magnetization arrow is drawn for an unmagnetised body")
+            continue
+        if len(lines) != 1:
+            return ("placed-at-pose", f"{backend}: {len(lines)} magnetization arrows drawn, expected 1")
+        pts = lines[0]["xyz"]
+        pts = pts[~np.isnan(pts).any(axis=1)]
+        pos, rot = path_arrays(s1)
+        want_tail = np.array(getattr(obj, "barycenter", obj.position), dtype=float).reshape(-1, 3)[-1]
+        want_dir = rot[0].apply(pol / np.linalg.norm(pol))
+        shaft = pts[-1] - pts[0]
+        L = max(np.linalg.norm(shaft), 1e-300)
+        if np.linalg.norm(pts[0] - want_tail) > 1e-9 * (np.abs(pos).max() + body_size(s1) + L):
+            return ("placed-at-pose", f"{backend}: the magnetization arrow does not start at the barycenter")
+        if np.linalg.norm(shaft / L - want_dir) > 1e-6:
+            return ("placed-at-pose", f"{backend}: the magnetization arrow does not point along the magnetization")
+        head = pts[1:-1]
+        if len(head) and ((head - pts[0]) @ want_dir).max() > L * (1 + 1e-9):
+            return ("placed-at-pose", f"{backend}: the arrow head lies beyond the shaft")
     return None
 
 
@@ -1102,8 +1240,7 @@ def check_animation(spec):
     if n < 2:
         return None
     obj = build(spec)
-    fig = magpy.show(obj, backend="plotly", return_fig=True, animation=True, units_length="m", **DECOR_OFF,
-                     **({"style_sizemode": "absolute"} if spec["cls"] in OTHERS else {}))
+    fig = magpy.show(obj, animation=True, **show_kwargs({**spec, "backend": "plotly", "units": "m", "frames": None}))
     ref_spec = {**spec, "pos": [0.0, 0.0, 0.0], "rotvec": [0.0, 0.0, 0.0], "frames": None, "units": "m"}
     ref_tr, _ = to_metres(do_show([build(ref_spec)], show_kwargs(ref_spec)))
     local = body_traces(ref_tr, spec["cls"])[0]["xyz"]
@@ -1490,6 +1627,29 @@ def search(ctx, big):
                 ctx.bump(f"scale-decade:{scale:g}")
                 if res is not None:
                     report(ctx, spec, res)
+    # 1c. fixed battery of exact special values (the degenerate branches of rotation-onto-axis code, sign
+    # handling, chirality): every class, every run
+    flips = [[math.pi, 0, 0], [0, math.pi, 0], [0, 0, math.pi], [0.0, 0.0, 0.0]]
+    for spec in special_specs(rng):
+        for k, rv in enumerate(flips if spec.pop("_flips", False) else [None]):
+            sp = copy.deepcopy(spec)
+            if rv is not None:
+                sp["rotvec"] = rv
+                sp["pos"] = [0.5 * k, -1.0, 2.0]
+            for fn in ((check_single, check_mag_arrows) if sp["cls"] in MAGNETS else (check_single,)):
+                res = safe_check(fn, sp)
+                ctx.case(("special", fn.__name__, json.dumps(sp, sort_keys=True)), True)
+                ctx.bump("special:" + sp["cls"])
+                if res is not None:
+                    report(ctx, {**sp, "kind": "single" if fn is check_single else "mag-arrows"}, res, fn=fn)
+    # 1d. magnetization arrows at generic poses
+    for t in range(ctx.n(14, 200) * mult):
+        spec = gen_single(rng, MAGNETS[t % len(MAGNETS)])
+        res = safe_check(check_mag_arrows, spec)
+        ctx.case(("mag-arrows", json.dumps(spec, sort_keys=True)), True)
+        ctx.bump("mag-arrows:" + spec["cls"])
+        if res is not None:
+            report(ctx, {**spec, "kind": "mag-arrows"}, res, fn=check_mag_arrows)
     # 2. scenes with collections and nesting
     for t in range(ctx.n(25, 700) * mult):
         spec = gen_scene(rng, ALL_CLASSES)
@@ -1545,7 +1705,7 @@ def search(ctx, big):
             ctx.impl_fail(f"{res[0]}/{spec['cls']}:animation", res[1], spec)
 
 
-CHECKS = {"single": check_single, "scene": check_scene, "animation": check_animation, "mpl-sliced": check_mpl_sliced}
+CHECKS = {"single": check_single, "mag-arrows": check_mag_arrows, "scene": check_scene, "animation": check_animation, "mpl-sliced": check_mpl_sliced}
 
 
 def run(ctx):
